@@ -106,6 +106,11 @@ def generate(repo):
     i1, i2, i3 = ens.find('tx.staged_proposition('), ens.find('find_proposition('), ens.find('tx.mint(ElementKind::Proposition)')
     out.append('Definition ensure_resolves_staged : bool := %s.\n' % b(0 <= i1 < i2 < i3))
     out.append('Definition ensure_resolves_committed : bool := %s.\n' % b(0 <= i2 < i3))
+    # the in-block lookup walks the staging map itself (every row this transaction staged, whether or not a
+    # handle names it - an anonymous ENSURE binds none), not the handle table
+    sp_body = fn_body(tx, 'staged_proposition', G)
+    out.append('Definition staged_lookup_walks_staging_map : bool := %s.\n' % b(
+        bool(re.search(r'self\.staged\s*\.(iter|values)\(\)', sp_body)) and 'self.handles' not in sp_body and 'tuple_key == tuple_key' in sp_body.replace('row.', '')))
     ups = fn_body(cl, 'upsert_concept', G)
     out.append('Definition upsert_resolves_by_key : bool := %s.\n' % b('find_concept_by_key(' in ups and ups.find('find_concept_by_key(') < ups.find('tx.mint(ElementKind::Concept)')))
 
@@ -162,6 +167,13 @@ def generate(repo):
     ld = fn_body(kq, 'load', G)
     out.append('Definition historical_load_reads_element_at : bool := %s.\n' % b(bool(re.search(
         r'Some\(seq\) => (?:match )?self\.store\.element_at\(&self\.space, id, seq\)', ld))))
+    # ---- AS OF TIME: what reaches seq_at_time is the NORMALIZED instant (the value time::normalize returns), never
+    # the caller's spelling - the journal scan compares strings
+    ra = fn_body(kq, 'resolve_as_of', G)
+    m = re.search(r'let (\w+) = crate::time::normalize\(&(\w+), "AS OF TIME"\)\?;\s*self\.store\.seq_at_time\(&self\.space, &(\w+)\)', ra)
+    out.append('Definition as_of_time_passes_normalized_instant : bool := %s.\n' % b(bool(m) and m.group(1) == m.group(3)))
+    matcher_norm = re.search(r'Slot::Value\(value\) if column_of\(kind, key\)\.is_some\(\) =>', fn_body(mt, 'match_element', G))
+    out.append('Definition historical_matcher_normalizes_only_indexed_keys : bool := %s.\n' % b(bool(matcher_norm)))
     # ---- nexus.rs: Executor::execute for Session - which side of the RwLock each command family holds, and for how long
     nx = strip_rust_comments(read(repo, base + 'nexus.rs'))
     m = re.search(r'impl Executor for Session\s*\{(.*?)\n\}\n', nx, re.S)
